@@ -845,6 +845,12 @@ func (g *vfGW) apply(evFull string) {
 		if arg(3) == "local" {
 			popts = append(popts, WithLocalPublication(true))
 		}
+		if arg(3) == "key" {
+			// lpub:T:LABEL:key -- a key handed in for this one publication; the node (strict no-signing policy) has to
+			// refuse the signed message it has just built
+			k := vfIdentity("perpublish")
+			popts = append(popts, WithSecretKeyAndPeerId(k.priv, k.id))
+		}
 		err := g.topic(arg(1)).Publish(context.Background(), data, popts...)
 		if err != nil {
 			g.lpubErr[arg(2)] = err.Error()
